@@ -3,12 +3,13 @@ from lib import terms
 from props import dbcommon as D
 
 ID = 'C07'
-IMPORTS = ['Engine.Db', 'Engine.DbCursor', 'Engine.DbFacts', 'Engine.DbOpen', 'Engine.RunDb', 'Engine.DbProg', 'Engine.RunDbProg']
+IMPORTS = ['Engine.Db', 'Engine.DbCursor', 'Engine.DbFacts', 'Engine.DbOpen', 'Engine.RunDb', 'Engine.DbProg', 'Engine.RunDbProg', 'Engine.DbProgMeta', 'Engine.RunDbProgMeta']
 THEOREMS = ['C07_db_refines_list_spec', 'C07_db_refines_list_spec_from_init', 'C07_sim_op', 'C07_query_cursor_answers',
             'C07_match_binds_pattern', 'C07_ids_invariant', 'C07_nothing_raises', 'C07_compiled_updates_are_list_operations',
             'C07_compiled_refines_list_spec', 'C07_compiled_run_is_cursor_history',
             'C07_open_history_is_history', 'C07_open_assert_stores_value', 'C07_open_bindings_are_the_answer',
-            'C07_open_no_lost_update', 'C07_retract_answer_is_stored', 'C07_clear_then_resume']
+            'C07_open_no_lost_update', 'C07_retract_answer_is_stored', 'C07_clear_then_resume',
+            'C07_meta_updates_are_list_operations']
 RULE = ('histories of 3-30 operations (asserta/assertz through the builtin, through a goal held in a bound variable, '
         'through a compiled clause, and through YP.assert_fact; retract taken for k answers then closed or run to '
         'exhaustion; retractall; queries through YP.query, a compiled clause and call/1; clear) over 1-3 predicates of '
@@ -78,6 +79,8 @@ def gen(rng, tier):
             c['kind'] = 'events'
         extra += big
     extra += [D.gen_dbprog_grown(rng, loopy=0.5) for i in range(30 if tier == 'quick' else 500)]
+    # round 6: the database reached through call/N, once/1, findall/3 (model: DbProgMeta)
+    extra += [D.gen_dbprog_meta(rng, loopy=0.5) for i in range(70 if tier == 'quick' else 1200)]
     return D.spread(cases, extra)
 
 def builtin_corpus():
@@ -193,6 +196,13 @@ def distribution(cases, obs):
                         d['prog_goals']['nested:' + g[0]] = d['prog_goals'].get('nested:' + g[0], 0) + 1
             if any(g[0] in ('cut', 'fail', 'or', 'if', 'ifthen', 'not') for cl in c['clauses'] for g in cl['body']):
                 d['kinds']['dbprog with control'] = d['kinds'].get('dbprog with control', 0) + 1
+            if c.get('meta'):
+                d['kinds']['dbprog with meta-calls'] = d['kinds'].get('dbprog with meta-calls', 0) + 1
+                for cl in c['clauses']:
+                    for g in D.flat_goals(cl['body']):
+                        if g[0] == 'c' and g[1] in ('call', 'once', 'findall'):
+                            kk = 'meta:%s/%d' % (g[1], len(g[2]))
+                            d['prog_goals'][kk] = d['prog_goals'].get(kk, 0) + 1
             e = o['end'] if isinstance(o, dict) else 'other'
             d['ended'][e] = d['ended'].get(e, 0) + 1
             continue
